@@ -10,7 +10,15 @@ import (
 // Rand is splitmix64: the single PRNG state every random choice of a run derives from.
 type Rand struct{ s uint64 }
 
-func NewRand(seed uint64) *Rand { return &Rand{s: seed*0x9E3779B97F4A7C15 + 0x1234567} }
+// NewRand: the starting state is a hash of the seed. (It used to be seed*step+c with step the increment of
+// U64, which made the stream of seed k the stream of seed 1 advanced by k-1 draws: different seeds then
+// generated nearly the same operations.)
+func NewRand(seed uint64) *Rand {
+	z := seed*0xD1342543DE82EF95 + 0x1234567
+	z = (z ^ (z >> 30)) * 0xBF58476D1CE4E5B9
+	z = (z ^ (z >> 27)) * 0x94D049BB133111EB
+	return &Rand{s: z ^ (z >> 31)}
+}
 
 func (r *Rand) U64() uint64 {
 	r.s += 0x9E3779B97F4A7C15
